@@ -80,8 +80,9 @@ static void parse_report(const char* text, Line& L)
     if (!p) { L.parsed = false; strncpy(L.raw, text, sizeof L.raw - 1); return; }
     text = p;
     while ((p = strstr(p, "Alloc num (")) != NULL) {
-        unsigned num = 0;
-        if (sscanf(p, "Alloc num (%u) Leak size:", &num) == 1) { if (L.nlisted < 64) L.listed[L.nlisted++] = id_of_num(num); }
+        unsigned num = 0; unsigned long size = 0; int n = 0;
+        // (an entry cut off by the end of the detector's text buffer is not an entry)
+        if (sscanf(p, "Alloc num (%u) Leak size: %lu Allocated at%n", &num, &size, &n) == 2 && n > 0) { if (L.nlisted < 64) L.listed[L.nlisted++] = id_of_num(num); }
         p += 10;
     }
     const char* f = NULL; const char* q = text;
